@@ -363,6 +363,8 @@ mod portable;
 mod registry;
 mod ty;
 mod utils;
+#[cfg(all(scale_info_verif, feature = "std"))]
+pub mod verif;
 
 #[doc(hidden)]
 pub use scale;
